@@ -259,6 +259,10 @@ func (maps *trackedMaps) processUnfiltered(ctx context.Context, ef *Filter, filt
 						if f.Kind() == reflect.Interface {
 							f = f.Elem()
 						}
+						if !f.IsValid() {
+							// a nil element of a []interface{}: nothing to filter
+							continue
+						}
 						if f.Kind() == reflect.Ptr {
 							if f.IsNil() {
 								continue
